@@ -38,6 +38,7 @@
 #include "scpi/expression.h"
 
 #define NIDX 10
+static long nbodies;      /* bodies executed so far */
 #define NCAP 5
 #define FILL 1515870810
 #define CANARY 0x7C3AC5E1
@@ -148,7 +149,9 @@ static void channel_query(sb_t * s, scpi_parameter_t * expr, int idx, int cap) {
     cur_idx = idx; cur_cap = cap;
     for (i = 0; i < words; i++) bf[i] = bt[i] = (i < NCAN || i >= NCAN + (size_t) cap) ? (int32_t) CANARY : FILL;
     SCPI_ErrorClear(&ctx);
-    r = SCPI_ExprChannelListEntry(&ctx, expr, idx, &isr, bf + NCAN, bt + NCAN, (size_t) cap, &dims);
+    /* capacity 0 with no arrays at all (every other body): a caller that only wants to know entries, ranges and dimensions */
+    if (cap == 0 && (nbodies & 1)) r = SCPI_ExprChannelListEntry(&ctx, expr, idx, &isr, NULL, NULL, 0, &dims);
+    else r = SCPI_ExprChannelListEntry(&ctx, expr, idx, &isr, bf + NCAN, bt + NCAN, (size_t) cap, &dims);
     for (i = 0; i < words; i++)
         if ((i < NCAN || i >= NCAN + (size_t) cap) && (bf[i] != (int32_t) CANARY || bt[i] != (int32_t) CANARY)) intact = 0;
     sb_add(s, "[%d,%d,%ld,[", rcmap(r), isr ? 1 : 0, (long) (dims > 100000 ? 100000 : dims));
@@ -189,7 +192,6 @@ static void add_compressed(sb_t * s, sb_t * it, int n) {
 
 static sb_t line;
 
-static long nbodies;
 static int query_order(int k) {
     int mode = (int) (nbodies % 3);
     if (mode == 0) return k;
@@ -272,6 +274,14 @@ static unsigned rnd(void) { rng ^= rng << 13; rng ^= rng >> 7; rng ^= rng << 17;
 static size_t gen_number(char * o, int intsonly) {
     unsigned r = rnd() % 100;
     char * p = o;
+    if (!intsonly && rnd() % 40 == 0) {
+        /* a numeral of 60..80 characters with one significant digit: zeros behind it, or a fraction of zeros and an exponent */
+        int z = 58 + (int) (rnd() % 20), k;
+        *p++ = (char) ('1' + rnd() % 9);
+        if (rnd() & 1) { for (k = 0; k < z; k++) *p++ = '0'; }
+        else { *p++ = '.'; for (k = 0; k < z; k++) *p++ = '0'; p += sprintf(p, "E%u", 1 + rnd() % 9); }
+        return (size_t) (p - o);
+    }
     if (r < 45) p += sprintf(p, "%u", rnd() % 10);
     else if (r < 65) p += sprintf(p, "%u", rnd() % 1000);
     else if (r < 72) p += sprintf(p, "-%u", rnd() % 100);
